@@ -11,7 +11,7 @@ func init() {
 		ID: "C13",
 		Explanation: "Error discipline decided for every call site of the library packages (age, agessh, armor, plugin, internal/*): (R13.1) no error result is dropped — each is returned (possibly wrapped), branched on, stored in a sticky field or handed to a recorder; the exceptions are one named symbol each in spec/allow_dropped.json with a reason; " +
 			"(R13.2) stream.Writer stores a failed flush in w.err on every path before returning it, and Write/Close test w.err on entry (the reader-side equivalents are R02.6, R08.4, R07.5); " +
-			"(R13.3) io.EOF is produced at exactly the two documented places, and a source-read error that is returned raw from a Read path is dominated by err != io.EOF; (R13.4) the close/footer/flush errors of armor and format writers reach the caller (instances of R13.1 named explicitly).",
+			"(R13.3) io.EOF is produced at exactly the two documented places, and a source-read error that is returned raw from a Read path is dominated by err != io.EOF; (R13.4) the close/footer/flush errors of armor and format writers reach the caller (instances of R13.1 named explicitly). (R13.10) no go statement in age, internal/stream, internal/format, armor.",
 		NotDecided:  "that the bytes the destination accepted form a valid file whenever all calls report success (value property); writers are assumed to obey the io.Writer contract.",
 		Assumptions: []string{"bytes.Buffer, strings.Builder and hash.Hash writes never fail", "io.ReadAll never returns io.EOF"},
 		Technique:   "static analysis: error-flow classification of every error-returning call (E5) with a named allow-list, CFG must-pass-through for sticky failure, who-may-produce list for io.EOF",
